@@ -38,6 +38,10 @@ type spec struct {
 	TimeoutQuick   time.Duration // harness kill => inconclusive
 	TimeoutThor    time.Duration
 	Isolate        bool // restart shard after a process death, skipping the open case
+	// ReplayTest: a test of the package that re-runs the single case stored in a
+	// replay file (data.case) directly; preferred over rapid's fail file, which
+	// is only valid as long as the generator draws the same sequence
+	ReplayTest string
 	Level          string
 	Fuzz           []string      // native fuzz targets run in the thorough tier
 	FuzzTime       time.Duration // per target
@@ -58,6 +62,7 @@ var specs = map[string]func(*spec){
 		s.ShardsQuick = 16
 		s.Fuzz = []string{"FuzzDecode"}
 		s.FuzzTime = 8 * time.Minute
+		s.ReplayTest = "TestReplay"
 	},
 	"C07": func(s *spec) { s.ShardsQuick = 16 },
 	"C08": func(s *spec) { s.ShardsQuick = 16 },
@@ -1019,6 +1024,13 @@ func doReplay(id string, sp spec, bin, work, path string) int {
 				cdir := filepath.Join(dir, "testdata", "fuzz", test)
 				_ = os.MkdirAll(cdir, 0o755)
 				_ = copyFile(cr, filepath.Join(cdir, filepath.Base(cr)))
+			}
+		}
+	}
+	if sp.ReplayTest != "" && !strings.HasPrefix(test, "Fuzz") && test != "shard-failure" {
+		if cm, ok := v.Case.(map[string]any); ok {
+			if dm, ok := cm["data"].(map[string]any); ok && dm["case"] != nil {
+				test = sp.ReplayTest
 			}
 		}
 	}
